@@ -12,8 +12,10 @@ EXTENDS IR
 
 HasObs == Finished /\ ph = 1 /\ "obs" \in DOMAIN C
 SrcObs == C.obs[av]
-\* executions the model cannot follow to the end (step budget, floats) give no verdict
-Judged == HasObs /\ SrcObs.status = "ok" /\ status \notin {"fuel", "outofmodel"}
+\* executions the model cannot follow (floats, more memory or call depth than IR.tla provides) give no verdict;
+\* the step budget of a case is 100 x the number of Src transitions + 2000 instructions, so exhausting it
+\* means that the IR does not terminate where the C program does
+Judged == HasObs /\ SrcObs.status = "ok" /\ status # "outofmodel" /\ ~(status = "fuel" /\ why # "step budget")
 
 \* bytes of n cells at offset off of the global called name (<<>> when there is no such global / range)
 MemberBytes(name, off, n) ==
@@ -22,8 +24,8 @@ MemberBytes(name, off, n) ==
     ELSE LET k == CHOOSE k \in S : TRUE IN
          IF off + n <= M.globals[k].size THEN Cells(gaddr[k] + off, n) ELSE <<>>
 
-\* a program whose behaviour the standard defines must not be translated into IR that traps,
-\* uses an undefined value, accesses memory out of bounds or is malformed
+\* a program whose behaviour the standard defines must not be translated into IR that traps, uses an
+\* undefined value, accesses memory out of bounds, is malformed or runs forever
 DefinedStaysDefined == Judged => status = "ok"
 SrcSameReturn  == (Judged /\ status = "ok") => ret = SrcObs.ret
 SrcSameGlobals == (Judged /\ status = "ok") =>
